@@ -168,6 +168,115 @@ example : ∀ p ∈ ([{ a := { name := "i", ty := .one .integer, optional := fal
   · exact Covered.dollar { name := "r", ty := .one .real, optional := true } rfl rfl rfl [] (q " ")
       (Seps.blanks _ (by decide)) (Seps.blanks _ (by decide))
 
+/-! ### what the writer emits is read back (record level) -/
+
+/-- attribute/value pairs of the covered kinds as they sit in memory -/
+inductive Storable {F} : AttrD → MVal F → Prop where
+  | null (a : AttrD) (hopt : a.optional = true) (hder : a.derived = false) (hred : a.redefining = false) : Storable a (nullOf a)
+  | derived (a : AttrD) (hder : a.derived = true) (hred : a.redefining = false) : Storable a .derived
+  | int (a : AttrD) (hty : a.ty = .one .integer) (hder : a.derived = false) (hred : a.redefining = false)
+      (i : Int) (hlo : IStream.longMin ≤ i) (hhi : i < IStream.longMax) : Storable a (.one (.atom (.int i)))
+
+/-- the parameter a stored value is written as (no layout) -/
+def paramOf {F} (ops : FloatOps F) (cfg : RWCfg) (d : Dict) (a : AttrD) (v : MVal F) : Param F :=
+  { a := a, v := v, tok := writeAttr ops cfg d a v, before := [], after := [] }
+
+theorem storable_covered {F} (ops : FloatOps F) (cfg : RWCfg) (d : Dict) (a : AttrD) (v : MVal F) (h : Storable a v) :
+    Covered (paramOf ops cfg d a v) := by
+  cases h with
+  | null hopt hder hred =>
+    have : writeAttr ops cfg d a (nullOf a : MVal F) = [36] := by
+      unfold nullOf; rw [hder]; simp only [Bool.false_eq_true, if_false]
+      cases hty : a.ty <;> simp [writeAttr, writeElemAttr, hty]
+    unfold paramOf; rw [this]
+    exact Covered.dollar a hopt hder hred [] [] (Seps.blanks [] (by simp)) (Seps.blanks [] (by simp))
+  | derived hder hred =>
+    exact Covered.star a hder hred [] [] (Seps.blanks [] (by simp)) (Seps.blanks [] (by simp))
+  | int hty hder hred i hlo hhi =>
+    have hs := showInt_spec i
+    have : writeAttr ops cfg d a (.one (.atom (.int i)) : MVal F) = showInt i := by
+      simp [writeAttr, hty, writeElemAttr, writeAtomCore]
+    unfold paramOf; rw [this]
+    have hc := Covered.integer (F := F) a hty hder hred (showInt i) hs.1 (by rw [hs.2]; exact hlo) (by rw [hs.2]; exact hhi)
+      [] [] (Seps.blanks [] (by simp)) (Seps.blanks [] (by simp))
+    rw [hs.2] at hc
+    exact hc
+
+/-- attribute list and value list of a record whose every pair is storable -/
+inductive StorableRec {F} : List AttrD → List (MVal F) → Prop where
+  | one (a : AttrD) (v : MVal F) (h : Storable a v) : StorableRec [a] [v]
+  | cons (a : AttrD) (v : MVal F) (as : List AttrD) (vs : List (MVal F)) (h : Storable a v) (ht : StorableRec as vs) :
+      StorableRec (a :: as) (v :: vs)
+
+def paramsOf {F} (ops : FloatOps F) (cfg : RWCfg) (d : Dict) : List AttrD → List (MVal F) → List (Param F)
+  | a :: as, v :: vs => paramOf ops cfg d a v :: paramsOf ops cfg d as vs
+  | _, _ => []
+
+theorem storable_red {F} {a : AttrD} {v : MVal F} (h : Storable a v) : a.redefining = false := by
+  cases h <;> assumption
+
+theorem paramsOf_spec {F} (ops : FloatOps F) (cfg : RWCfg) (d : Dict) (as : List AttrD) (vs : List (MVal F))
+    (h : StorableRec as vs) :
+    paramsOf ops cfg d as vs ≠ [] ∧ (paramsOf ops cfg d as vs).map (·.a) = as ∧ (paramsOf ops cfg d as vs).map (·.v) = vs ∧
+    (∀ p ∈ paramsOf ops cfg d as vs, Covered p) ∧
+    (∀ i, writeAttrsSimple ops cfg d (i + 1) as vs ++ [41] = 44 :: renderParams (paramsOf ops cfg d as vs)) ∧
+    writeAttrsSimple ops cfg d 0 as vs ++ [41] = renderParams (paramsOf ops cfg d as vs) := by
+  induction h with
+  | one a v h =>
+    have hr := storable_red h
+    refine ⟨by simp [paramsOf], by simp [paramsOf, paramOf], by simp [paramsOf, paramOf], ?_, ?_, ?_⟩
+    · intro p hp
+      simp only [paramsOf, List.mem_cons, List.mem_nil_iff, or_false] at hp
+      subst hp
+      exact storable_covered ops cfg d a v h
+    · intro i
+      simp [writeAttrsSimple, hr, paramsOf, renderParams, paramOf]
+    · simp [writeAttrsSimple, hr, paramsOf, renderParams, paramOf]
+  | cons a v as vs h ht ih =>
+    have hr := storable_red h
+    obtain ⟨h1, h2, h3, h4, h5, _⟩ := ih
+    refine ⟨by simp [paramsOf], by simp [paramsOf, paramOf, h2], by simp [paramsOf, paramOf, h3], ?_, ?_, ?_⟩
+    · intro p hp
+      simp only [paramsOf, List.mem_cons] at hp
+      rcases hp with rfl | hp
+      · exact storable_covered ops cfg d a v h
+      · exact h4 p hp
+    · intro i
+      have hne : ∃ q qs, paramsOf ops cfg d as vs = q :: qs := by
+        cases hq : paramsOf ops cfg d as vs with
+        | nil => exact absurd hq h1
+        | cons q qs => exact ⟨q, qs, rfl⟩
+      obtain ⟨q, qs, hq⟩ := hne
+      have := h5 (i + 1)
+      simp only [writeAttrsSimple, hr, Bool.false_eq_true, if_false, paramsOf, hq, renderParams, paramOf] at this ⊢
+      simp [List.append_assoc, this, hq]
+    · have hne : ∃ q qs, paramsOf ops cfg d as vs = q :: qs := by
+        cases hq : paramsOf ops cfg d as vs with
+        | nil => exact absurd hq h1
+        | cons q qs => exact ⟨q, qs, rfl⟩
+      obtain ⟨q, qs, hq⟩ := hne
+      have := h5 0
+      simp only [writeAttrsSimple, hr, Bool.false_eq_true, if_false, paramsOf, hq, renderParams, paramOf] at this ⊢
+      simp [List.append_assoc, this, hq]
+
+/-- **read ∘ write at record level** (`_partial`: the covered kinds — `$` on OPTIONAL attributes, `*` on derived ones,
+    INTEGER values within `long` minus the sentinel): what `SDAI_Application_instance::STEPwrite` emits for the parameter
+    list of a record is read back by `SDAI_Application_instance::STEPread` to exactly the stored values with severity
+    NULL, wherever the record stands in a file; hence writing again reproduces the same bytes. -/
+theorem C01_record_write_read_partial {F} (env : Env F) (strict : Bool) (hcfg : env.lex.criSkipsComments = true)
+    (cfg : RWCfg) (as : List AttrD) (vs : List (MVal F)) (h : StorableRec as vs) (l : List Byte) (sk : Bool) (rest : List Byte) :
+    ∃ s', instSTEPread env strict as
+        (G l (40 :: (writeAttrsSimple env.ops cfg env.dict 0 as vs ++ 41 :: rest)) sk) = .ok ⟨.null, vs, s'⟩ := by
+  obtain ⟨hne, hma, hmv, hcov, _, h0⟩ := paramsOf_spec env.ops cfg env.dict as vs h
+  obtain ⟨sk', hr⟩ := C01_read_record_partial env strict hcfg (paramsOf env.ops cfg env.dict as vs) hne hcov l sk rest
+  rw [hma, hmv] at hr
+  have e : writeAttrsSimple env.ops cfg env.dict 0 as vs ++ 41 :: rest =
+      renderParams (paramsOf env.ops cfg env.dict as vs) ++ rest := by
+    rw [← h0]; simp
+  rw [e]
+  exact ⟨_, hr⟩
+
+
 /-! ### the comment defects and their repair on the minimal inputs (model level; the check replays them on the code) -/
 
 def exDict : Dict :=
